@@ -291,6 +291,23 @@ def inner_xmlns_family():
     return out
 
 
+def xml_named_family():
+    """Names and prefixes that begin with the letters x, m, l (reserved by XML for itself, used all the same: xmlData, prefix
+    xmlapi) in references: `ref="xmlNote"` under a default namespace and `ref="xmlapi:xmlRemark"` mean global elements, not
+    `xml:…` attributes."""
+    f0 = _file(0, "http://zv.test/xmlnamed/main", {0: "", 1: "xmlapi"}, [1])
+    f1 = _file(1, "http://zv.test/xmlnamed/api", {1: "xmlapi"})
+    remark = GlobalElement(Name(("xml", "remark"), "camel"), content=Content(Group("sequence", 1, 1, [LocalElement(N("text"), TypeRef("string"))]), []), file=1)
+    plain = GlobalElement(N("plain", "remark"), content=Content(Group("sequence", 1, 1, [LocalElement(N("text"), TypeRef("string"))]), []), file=1)
+    f1.components = [remark, plain]
+    note = GlobalElement(Name(("xml", "note"), "camel"), content=Content(Group("sequence", 1, 1, [LocalElement(N("line"), TypeRef("int"))]), []), file=0)
+    holder = ComplexType(N("holder"), Content(Group("sequence", 1, 1, [
+        ElementRef(TypeRef(note.name.xml, 0, note)), ElementRef(TypeRef(remark.name.xml, 1, remark), 0, 1),
+        ElementRef(TypeRef(plain.name.xml, 1, plain), 0, 3)]), []), file=0)
+    f0.components = [note, holder]
+    return [("xml-named:references", SchemaSet([f0, f1], "f0.xsd", None, {"names-beginning-with-xml", "element-ref", "element-ref-foreign", "own-namespace-as-default"}))]
+
+
 def _code(i):
     """A digit-free word for a number (case conversion of digits is ambiguous)."""
     return "k" + "".join("abcdefghij"[int(d)] for d in str(i))
